@@ -20,6 +20,8 @@ ASSUMPTIONS = ["names are unique across all live cells and raw cells (the librar
 
 NAMES = ["A", "AB", "ABC", "ABCD", "ADDER_A", "ADDER_B", "ADD", "MUX", "MUX_2", "MUX_21", "X", "Y1", "Y12", "top", "TOP", "cell_with_a_long_name", "c", "Z9"]
 TAGS = [[1, 0], [2, 0], [3, 1], [4, 0], [5, 5], [1, 1]]
+# remap tables may also name tags that no element carries (keys) or that no element carried before (values)
+REMAP_TAGS = TAGS + [[10 + i, i % 3] for i in range(14)]
 
 
 def op_strategy(maxops):
@@ -33,7 +35,9 @@ def op_strategy(maxops):
         st.tuples(st.just("rename"), st.sampled_from(["byname", "byptr"]), i, i),
         st.tuples(st.just("replace"), st.sampled_from(["cc", "cc", "rc", "cr", "rr"]), i, i, st.booleans(), st.booleans()),
         st.tuples(st.just("replace"), st.sampled_from(["cc", "cc", "rc", "cr", "rr"]), i, i, st.booleans(), st.booleans()),
-        st.tuples(st.just("remap"), st.sampled_from(["lib", "cell"]), i, st.lists(st.tuples(st.integers(0, 5), st.integers(0, 5)), min_size=1, max_size=4)),
+        st.tuples(st.just("remap"), st.sampled_from(["lib", "cell"]), i, st.one_of(st.lists(st.tuples(st.integers(0, 5), st.integers(0, 5)), min_size=1, max_size=4),
+                                                                             # large maps: the TagMap grows (5th and 9th entry) while it is filled
+                                                                             st.lists(st.tuples(st.integers(0, 19), st.integers(0, 19)), min_size=5, max_size=16))),
         st.tuples(st.just("copy_lib"), st.booleans(), i),
         st.tuples(st.just("copy_cell"), i, st.booleans(), i),
     )
@@ -347,7 +351,7 @@ def check(ctx, case):
             pairs = {}
             for a_, b_ in op[3]:
                 if a_ != b_:
-                    pairs[tuple(TAGS[a_])] = tuple(TAGS[b_])
+                    pairs[tuple(REMAP_TAGS[a_])] = tuple(REMAP_TAGS[b_])
             if not pairs:
                 continue
             spec = "%d %s" % (len(pairs), " ".join("%d %d %d %d" % (k[0], k[1], v[0], v[1]) for k, v in pairs.items()))
@@ -364,6 +368,8 @@ def check(ctx, case):
                     c[key] = [list(pairs.get(tuple(t), tuple(t))) for t in c[key]]
             if any(v in pairs for v in pairs.values()):
                 labels.add("remap_chained")
+            if len(pairs) >= 5:
+                labels.add("remap_map_grew")
         elif name == "copy_lib":
             deep = op[1]
             cid = "K%d" % len(expect)
